@@ -26,8 +26,13 @@ def find_dispatchers(prog, bodies):
     """Bodies (reachable from the parse roots) that call a version-specific parser."""
     names = set(VERSION_PARSERS.values())
     out = {}
-    for (b, blk, t, c) in call_sites(bodies, names):
-        out.setdefault(b.path, (b, []))[1].append((blk, c))
+    for p in sorted(dispatcher_paths(prog)):
+        if p not in bodies:
+            continue
+        b = role_body(prog, p)
+        for blk, t, c in b.calls():
+            if c is not None and c.npath in names:
+                out.setdefault(p, (b, []))[1].append((blk, c))
     return out
 
 
@@ -52,7 +57,16 @@ def version_expr_ok(an, prog, e):
         return False, "version is parsed from something other than the function's input slice: %s" % canon(e)
     last = e
     if not (last[0] == "field" and last[2] == "version") and not c.is_("nom::number::complete::be_u16"):
-        return False, "gate key is not the parsed `version` field: %s" % canon(e)
+        # whatever the private header struct calls it: the field filled by the first step of the header parser
+        # (the first bytes of the packet are the version word; its width and byte order are R12.5's)
+        first = None
+        if last[0] == "field" and c.local:
+            from .layout import Layouts
+            L = Layouts(prog, an).parser_layout(c.path if c.path in prog.bodies else c.npath)
+            if L["ok"] and L["steps"]:
+                first = L["steps"][0]["fields"]
+        if not (first and last[2] in first):
+            return False, "gate key is not the parsed `version` field: %s" % canon(e)
     return True, "version = %s" % canon(e)
 
 
@@ -127,11 +141,13 @@ def version_word_rule(ctx, prog, an, rid):
                 continue
             c = cur[2]
             narrowed = [x for x in casts if re.match(r"^[ui](8)$", str(x[1]))]
+            fnames = [x[2] for x in find(key, lambda n: n[0] == "field" and peel(n[1])[0] == "tfield" and peel(n[1])[1][0] == "ok")]
+            vname = fnames[0] if fnames else "version"
             if c.is_("nom::number::complete::be_u16", "nom::number::streaming::be_u16"):
                 ok, why = not narrowed, "version read by %s" % c.npath
             elif c.local:
                 L = lay.parser_layout(c.path if c.path in prog.bodies else c.npath)
-                st = [x for x in (L["steps"] if L["ok"] else []) if "version" in x["fields"]]
+                st = [x for x in (L["steps"] if L["ok"] else []) if vname in x["fields"]]
                 if not st:
                     ok, why = False, "header parser %s has no recognisable `version` step (%s)" % (c.path, L.get("why", ""))
                 else:
